@@ -185,6 +185,26 @@ func (v Val) Go() any {
 			out[kv.K] = kv.V.S == "true"
 		}
 		return out
+	case "struct":
+		// a Go struct value with one exported field per entry (K must be an exported identifier);
+		// fields are typed like their values (a nil value gives an `any` field)
+		fields := make([]reflect.StructField, len(v.M))
+		vals := make([]any, len(v.M))
+		for i, kv := range v.M {
+			vals[i] = kv.V.Go()
+			t := reflect.TypeOf(vals[i])
+			if t == nil {
+				t = reflect.TypeOf((*any)(nil)).Elem()
+			}
+			fields[i] = reflect.StructField{Name: kv.K, Type: t}
+		}
+		sv := reflect.New(reflect.StructOf(fields)).Elem()
+		for i, x := range vals {
+			if x != nil {
+				sv.Field(i).Set(reflect.ValueOf(x))
+			}
+		}
+		return sv.Interface()
 	case "ptr":
 		inner := v.L[0].Go()
 		if inner == nil {
